@@ -548,3 +548,94 @@ def c12_models():
     for t, f, m in dde_models():
         out.append((t, dict(f, dde=True), m))
     return out
+
+
+# --------------------------------------------------------------------------------------------- C05 expression trees
+C05_FUNCS1 = ["sin", "cos", "tanh", "exp", "sigmoid", "absv", "arctan", "sinh", "cosh"]
+C05_FUNCS2 = ["maxi", "mini"]
+
+
+def _has_var(tree):
+    from .mdl import free_vars
+    return bool(free_vars(tree) - {"pi", "E"})
+
+
+def random_tree(rng, depth, names, banned=frozenset()):
+    """Random expression tree over names; divisions only by (c + sub^2), c >= 1 (no singularities); exp of bounded args.
+    Triggers of listed known findings are avoided by construction (each has its own witness): a function nested inside its
+    own argument, a PyRates-specific function of constants only, the constant E."""
+    if depth == 0 or rng.random() < 0.2:
+        r = rng.random()
+        if r < 0.6:
+            return V(rng.choice(names))
+        if r < 0.7:
+            return V("pi")
+        return N(rng.choice([2.0, 0.5, 3.0, 1.5, 0.25, 10.0]))
+    k = rng.choice(["+", "-", "*", "/", "neg", "pow", "call1", "call2", "+", "*", "-"])
+    if k == "neg":
+        return ["neg", random_tree(rng, depth - 1, names, banned)]
+    if k == "pow":
+        return ["pow", random_tree(rng, depth - 1, names, banned), rng.choice([2, 3])]
+    if k == "/":
+        return ["/", random_tree(rng, depth - 1, names, banned),
+                ["+", N(rng.choice([1.0, 2.0])), ["pow", random_tree(rng, depth - 1, names, banned), 2]]]
+    if k == "call1":
+        free = [f for f in C05_FUNCS1 if f not in banned and not (f in ("exp", "sinh", "cosh") and "tanh" in banned)]
+        if not free:
+            return V(rng.choice(names))
+        fn = rng.choice(free)
+        inner_ban = banned | {fn} | ({"tanh"} if fn in ("exp", "sinh", "cosh") else set())
+        arg = random_tree(rng, depth - 1, names, inner_ban)
+        if not _has_var(arg):
+            arg = ["+", arg, V(names[-1])]
+        if fn in ("exp", "sinh", "cosh"):
+            arg = ["call", "tanh", arg]          # keeps the argument bounded
+        return ["call", fn, arg]
+    if k == "call2":
+        free = [f for f in C05_FUNCS2 if f not in banned]
+        if not free:
+            return V(rng.choice(names))
+        fn = rng.choice(free)
+        a1 = random_tree(rng, depth - 1, names, banned | {fn})
+        a2 = random_tree(rng, depth - 1, names, banned | {fn})
+        if not _has_var(a1) and not _has_var(a2):
+            a1 = ["+", a1, V(names[-1])]
+        return ["call", fn, a1, a2]
+    return [k, random_tree(rng, depth - 1, names, banned), random_tree(rng, depth - 1, names, banned)]
+
+
+def c05_witnesses():
+    def mk(tree):
+        return model([dict(name="eo", eqs=[["x", "de", tree]], vars={"x": ["output", 0.3], "r": ["const", 0.7]})], {"p": dict(ops=["eo"])})
+    return [
+        ("W-nested-same-function", dict(), mk(["call", "sin", ["call", "sin", V("x")]])),
+        ("W-nested-same-function-maxi", dict(), mk(["call", "maxi", V("x"), ["call", "maxi", V("r"), ["+", V("x"), V("r")]]])),
+        ("W-function-of-constants-only", dict(), mk(["+", ["call", "maxi", N(1.5), N(2.0)], V("x")])),
+        ("W-function-of-constants-only-sigmoid", dict(), mk(["+", ["call", "sigmoid", N(2.0)], V("x")])),
+        ("W-constant-E", dict(), mk(["*", V("E"), V("x")])),
+    ]
+
+
+C05_NAME_SETS = [["a", "b", "x"], ["r", "rr", "x"], ["r_in", "r", "x"], ["x_v1", "x", "b"], ["weight", "x", "u"],
+                 ["m_in2", "m", "x"], ["r_in0", "r_in", "x"], ["tau", "taux", "x"]]
+
+
+def c05_models(seed, n, depth):
+    """One-equation operators `x' = <tree>` (x is always the state variable, the other names are constants)."""
+    rng = random.Random(seed)
+    out = []
+    for j in range(n):
+        names = rng.choice(C05_NAME_SETS)
+        state = names[-1] if "x" not in names else "x"
+        tree = random_tree(rng, depth, names)
+        if state not in str(tree):
+            tree = ["+", tree, V(state)]
+        vars_ = {state: ["output", round(rng.uniform(-1, 1), 2)]}
+        for nm in names:
+            if nm != state:
+                vars_[nm] = ["const", round(rng.uniform(0.3, 1.7), 2)]
+        used = {nm for nm in names if f'"{nm}"' in __import__("json").dumps(tree)}
+        vars_ = {k_: v_ for k_, v_ in vars_.items() if k_ in used or k_ == state}
+        op = dict(name="eo", eqs=[[state, "de", tree]], vars=vars_)
+        out.append((f"X{seed}-{j}", dict(names=names, depth=depth), model([op], {"p": dict(ops=["eo"])})))
+    return out
